@@ -64,5 +64,7 @@ Proof. exact Rb_blank_spec. Qed.
    a sequence of accepted actions — no byte string makes the importer fabricate an illegal game *)
 Theorem C15_import_sound : forall K t g tag, from_pgn_text K t = Ok (g, tag) ->
   exists g0 acts, default_game K = Ok g0 /\ Forall wf_action acts /\ g = run K g0 acts /\
-                  RuleChain K (g_positions g) (g_moves g) (g_meta g) /\ GameGood K g.
+                  RuleChain K (g_positions g) (g_moves g) (g_meta g) /\ GameGood K g /\
+                  g_tag g = tag_of_status (g_status g) /\
+                  (g_status g <> GOngoing -> tag = print_rtag (tag_of_status (g_status g))).
 Proof. exact import_sound. Qed.
